@@ -23,7 +23,11 @@ fn obs(f: &Full) -> Value {
         DENOMS.iter().map(|d| v.iter().find(|a| a.info == A::Native(d.to_string()).info()).map(|a| a.amount.u128()).unwrap_or(0)).collect()
     };
     let bal: Vec<u128> = DENOMS.iter().map(|d| f.w.balance(&f.trio, &A::Native(d.to_string()))).collect();
-    json!({"init": c.initial_amp.to_string(), "future": c.future_amp.to_string(), "start": c.initial_amp_block.to_string(),
+    let all: ProtocolFeesResponse = f.w.query(&f.trio, &QueryMsg::ProtocolFees { asset_id: None, all_time: Some(true) }).unwrap();
+    let burned: ProtocolFeesResponse = f.w.query(&f.trio, &QueryMsg::BurnedFees { asset_id: None }).unwrap();
+    let col: Vec<u128> = DENOMS.iter().map(|d| f.w.balance(&f.hub.collector, &A::Native(d.to_string()))).collect();
+    let circ: Vec<u128> = DENOMS.iter().map(|d| f.w.supply(&A::Native(d.to_string()))).collect();
+    json!({"feeAll": sv(&by(&all.fees)), "burned": sv(&by(&burned.fees)), "col": sv(&col), "circ": sv(&circ),"init": c.initial_amp.to_string(), "future": c.future_amp.to_string(), "start": c.initial_amp_block.to_string(),
         "stop": c.future_amp_block.to_string(), "height": f.w.app.block_info().height.to_string(),
         "res": sv(&by(&p.assets)), "S": s(p.total_share.u128()), "fee": sv(&by(&fees.fees)), "bal": sv(&bal)})
 }
